@@ -36,8 +36,30 @@ Proof.
   split; [exact Hnr|].
   split; [exact Hfl|].
   destruct (find_rt_in _ _ _ Hrt) as [Hin Hid].
-  destruct (i_rts _ _ Hr1 _ Hin) as [_ [e0 [t0 [He0 [Ho0 [Hk0 Hm]]]]]].
+  destruct (i_rts _ _ _ Hr1 _ Hin) as [_ [e0 [t0 [He0 [Ho0 [Hk0 Hm]]]]]].
   exists e0, t0. rewrite Hid in Hk0. destruct Hm as [_ [_ [_ [Hazp _]]]]. auto.
+Qed.
+
+Lemma refusal_keeps_state_aux pl r s cr rt scopes s' x :
+  step H cf r s (TokenRefresh pl cr rt scopes) = (s', x) -> is_tokens x = false -> s = s'.
+Proof. intros Hs Hk. apply step_trans in Hs. symmetry. eapply trans_refresh_refused; eauto. Qed.
+
+(* a request is judged on what it carries itself: whatever the history before it (e.g. a request
+   of the token's rightful client, with its credentials, immediately before), a refresh whose own
+   credential does not prove the client of the presented token is refused and changes nothing *)
+Lemma unproven_refused ops h s : exec H cf ops = (h, s) ->
+  forall h1 e h2 pl cr n scopes r,
+    h = h1 ++ e :: h2 -> e_op e = TokenRefresh pl cr (Some n) scopes ->
+    find_rt (e_pre e) n = Some r -> cred_proves cf cr (r_client r) = false ->
+    is_tokens (e_out e) = false /\ e_post e = e_pre e.
+Proof.
+  intros Hex h1 e h2 pl cr n scopes r Heq Hop Hrt Hnp.
+  destruct (e_out e) as [| | | | |t| | | |] eqn:Hout.
+  6: { destruct (bound ops h s Hex h1 e h2 pl cr (Some n) scopes t Heq Hop Hout)
+         as [n' [r' [[= <-] [Hrt' [Hp _]]]]]. rewrite Hrt in Hrt'. injection Hrt' as <-. congruence. }
+  all: split; [reflexivity|];
+    apply exec_reach in Hex; destruct (reach_split H cf h s Hex h1 e h2 Heq) as [_ Hstep];
+    rewrite Hop in Hstep; symmetry; eapply refusal_keeps_state_aux; eauto; rewrite Hout; reflexivity.
 Qed.
 
 (* every refresh step factors through finish_refresh, independently of the scope parameter *)
@@ -47,7 +69,7 @@ Proof. destruct pl; reflexivity. Qed.
 Lemma refresh_factor pl r s cr n :
   (exists e, forall scopes, step H cf r s (TokenRefresh pl cr (Some n) scopes) = (s, err r e))
   \/ (exists t c, find_rt s n = Some t /\
-        forall scopes, step H cf r s (TokenRefresh pl cr (Some n) scopes) = finish_refresh r s t c scopes).
+        forall scopes, step H cf r s (TokenRefresh pl cr (Some n) scopes) = finish_refresh cf r s t c scopes).
 Proof.
   cbn [step]. rewrite read_grant_ok. cbn [read_field]. rewrite read_field_some.
   destruct r; unfold prov_refresh, legacy_refresh.
@@ -91,7 +113,7 @@ Lemma refusal_keeps_state pl r s cr rt scopes s' x :
 Proof. intros Hs Hk. apply step_trans in Hs. eapply trans_refresh_refused; eauto. Qed.
 
 (* rotation *)
-Lemma rotation ops h s : exec H cf ops = (h, s) ->
+Lemma rotation ops h s : f_keep cf = false -> exec H cf ops = (h, s) ->
   forall h1 e h2 pl cr rt scopes t,
     h = h1 ++ e :: h2 -> e_op e = TokenRefresh pl cr rt scopes -> e_out e = OTokens t ->
   exists n m new,
@@ -101,20 +123,68 @@ Lemma rotation ops h s : exec H cf ops = (h, s) ->
     /\ r_id new = m
     /\ find_rt (e_post e) n = None /\ find_rt (e_post e) m = Some new.
 Proof.
-  intros Hex h1 e h2 pl cr rt scopes t Heq Hop Hout.
+  intros Hkeep Hex h1 e h2 pl cr rt scopes t Heq Hop Hout.
   apply exec_reach in Hex. destruct (reach_split H cf h s Hex h1 e h2 Heq) as [Hr1 Hstep].
   apply reach_inv in Hr1. apply step_trans in Hstep. rewrite Hop, Hout in Hstep.
   apply trans_refresh_inv in Hstep as [n [r [c [sc [-> [Hrt [Hfc [Hr [Hfl [Hp [Hn Hiss]]]]]]]]]]].
   destruct (find_rt_in _ _ _ Hrt) as [Hin Hid].
-  destruct (i_rts _ _ Hr1 _ Hin) as [Hle _].
-  unfold issue_refresh in Hiss. injection Hiss as Hpost <-. cbn [t_rt].
+  destruct (i_rts _ _ _ Hr1 _ Hin) as [Hle _].
+  unfold issue_refresh in Hiss. rewrite Hkeep in Hiss. injection Hiss as Hpost <-. cbn [t_rt].
   eexists n, (S (next (e_pre e))), _. split; [reflexivity|]. split; [reflexivity|]. split; [reflexivity|].
-  split. { intros x Hx. destruct (i_rts _ _ Hr1 _ Hx) as [A _]. lia. }
+  split. { intros x Hx. destruct (i_rts _ _ _ Hr1 _ Hx) as [A _]. lia. }
   rewrite <- Hpost. cbn [rtoks]. rewrite Hid.
   split; [reflexivity|]. split; [reflexivity|].
   unfold find_rt. cbn [rtoks find r_id]. rewrite Nat.eqb_refl. split; [|reflexivity].
   destruct (Nat.eqb (S (next (e_pre e))) n) eqn:E; [apply Nat.eqb_eq in E; lia|].
   apply find_filter_drop. intros y Ey. apply Nat.eqb_eq in Ey. rewrite Ey, Nat.eqb_refl. reflexivity.
+Qed.
+
+(* a non-rotating storage: the presented token stays, now standing for the narrowed grant, no
+   other refresh token is touched, and the response carries that very token *)
+Lemma keeps ops h s : f_keep cf = true -> exec H cf ops = (h, s) ->
+  forall h1 e h2 pl cr rt scopes t,
+    h = h1 ++ e :: h2 -> e_op e = TokenRefresh pl cr rt scopes -> e_out e = OTokens t ->
+  exists n old new,
+    rt = Some n /\ t_rt t = Some n
+    /\ find_rt (e_pre e) n = Some old /\ find_rt (e_post e) n = Some new
+    /\ r_scopes new = t_scope t /\ subset (r_scopes new) (r_scopes old) = true
+    /\ r_client new = r_client old /\ r_sub new = r_sub old /\ r_aud new = r_aud old /\ r_auth new = r_auth old
+    /\ rtoks (e_post e) = new :: filter (fun x => negb (Nat.eqb (r_id x) n)) (rtoks (e_pre e)).
+Proof.
+  intros Hkeep Hex h1 e h2 pl cr rt scopes t Heq Hop Hout.
+  apply exec_reach in Hex. destruct (reach_split H cf h s Hex h1 e h2 Heq) as [Hr1 Hstep].
+  apply step_trans in Hstep. rewrite Hop, Hout in Hstep.
+  apply trans_refresh_inv in Hstep as [n [r [c [sc [-> [Hrt [Hfc [Hr [Hfl [Hp [Hn Hiss]]]]]]]]]]].
+  destruct (find_rt_in _ _ _ Hrt) as [Hin Hid].
+  apply narrowed_subset in Hn as [Hs _].
+  unfold issue_refresh in Hiss. rewrite Hkeep in Hiss. injection Hiss as Hpost <-. cbn [t_rt t_scope].
+  eexists n, r, _. rewrite <- Hpost. cbn [rtoks]. rewrite Hid.
+  split; [reflexivity|]. split; [reflexivity|]. split; [exact Hrt|].
+  split. { unfold find_rt. cbn [rtoks find r_id]. rewrite Nat.eqb_refl. reflexivity. }
+  cbn. repeat split; auto.
+Qed.
+
+(* whatever the storage's policy: the response carries the refresh token that the storage holds
+   for the new grant after the exchange, with the scope of the response *)
+Lemma carries_storage_token ops h s : exec H cf ops = (h, s) ->
+  forall h1 e h2 pl cr rt scopes t,
+    h = h1 ++ e :: h2 -> e_op e = TokenRefresh pl cr rt scopes -> e_out e = OTokens t ->
+  exists m new, t_rt t = Some m /\ find_rt (e_post e) m = Some new
+    /\ r_scopes new = t_scope t /\ r_client new = t_azp t /\ r_sub new = t_at_sub t
+    /\ (f_keep cf = false -> rt <> Some m) /\ (f_keep cf = true -> rt = Some m).
+Proof.
+  intros Hex h1 e h2 pl cr rt scopes t Heq Hop Hout.
+  apply exec_reach in Hex. destruct (reach_split H cf h s Hex h1 e h2 Heq) as [Hr1 Hstep].
+  apply reach_inv in Hr1. apply step_trans in Hstep. rewrite Hop, Hout in Hstep.
+  apply trans_refresh_inv in Hstep as [n [r [c [sc [-> [Hrt [Hfc [Hr [Hfl [Hp [Hn Hiss]]]]]]]]]]].
+  destruct (find_rt_in _ _ _ Hrt) as [Hin Hid].
+  destruct (i_rts _ _ _ Hr1 _ Hin) as [Hle _].
+  unfold issue_refresh in Hiss. injection Hiss as Hpost <-. cbn [t_rt t_scope t_azp t_at_sub].
+  eexists _, _. split; [reflexivity|]. rewrite <- Hpost.
+  split. { unfold find_rt. cbn [rtoks find r_id]. rewrite Nat.eqb_refl. reflexivity. }
+  cbn [r_scopes r_client r_sub]. repeat split; auto.
+  - intros Hk. rewrite Hk. intros [= E]. lia.
+  - intros Hk. rewrite Hk. now rewrite Hid.
 Qed.
 
 (* one link of a chain *)
@@ -127,11 +197,12 @@ Proof.
   apply exec_reach in Hex. destruct (reach_split H cf h s Hex h1 e2 h2 Heq) as [Hr1 Hstep].
   apply reach_inv in Hr1. apply step_trans in Hstep. rewrite Hop2, Ho2 in Hstep.
   apply trans_refresh_inv in Hstep as [n' [r [c [sc' [[= <-] [Hrt [Hfc [Hr [Hfl [Hp [Hn Hiss]]]]]]]]]]].
-  destruct (i_issued _ _ Hr1 e1 t1 n Hin1 Ho1 Hk1) as [_ Hm].
+  destruct (i_issued _ _ _ Hr1 e1 t1 n Hin1 Ho1 Hk1) as [_ Hm].
   destruct (Hm r Hrt) as [M1 [M2 [M3 [M4 M5]]]].
   apply narrowed_subset in Hn as [Hs _].
   unfold issue_refresh in Hiss. injection Hiss as _ <-.
-  cbn [t_scope t_at_sub t_aud t_auth t_azp]. rewrite M1, M2, M3, M4, M5. auto.
+  cbn [t_scope t_at_sub t_aud t_auth t_azp]. rewrite M2, M3, M4, M5.
+  split; [eapply subset_trans; eauto | auto].
 Qed.
 
 Lemma monotone ops h s : exec H cf ops = (h, s) ->
@@ -147,20 +218,20 @@ Proof.
 Qed.
 
 (* a rotated token fails *)
-Lemma replay ops h s : exec H cf ops = (h, s) ->
+Lemma replay ops h s : f_keep cf = false -> exec H cf ops = (h, s) ->
   forall h1 e1 h2 e2 h3 n pl1 cr1 sc1 pl2 cr2 sc2,
     h = h1 ++ e1 :: h2 ++ e2 :: h3 ->
     e_op e1 = TokenRefresh pl1 cr1 (Some n) sc1 -> is_tokens (e_out e1) = true ->
     e_op e2 = TokenRefresh pl2 cr2 (Some n) sc2 ->
     is_tokens (e_out e2) = false /\ e_post e2 = e_pre e2.
 Proof.
-  intros Hex h1 e1 h2 e2 h3 n pl1 cr1 sc1 pl2 cr2 sc2 Heq Ho1 Hk1 Ho2.
+  intros Hkeep Hex h1 e1 h2 e2 h3 n pl1 cr1 sc1 pl2 cr2 sc2 Heq Ho1 Hk1 Ho2.
   apply exec_reach in Hex.
   assert (Heq' : h = (h1 ++ e1 :: h2) ++ e2 :: h3) by (rewrite Heq, <- app_assoc; reflexivity).
   destruct (reach_split H cf h s Hex _ e2 h3 Heq') as [Hr Hstep].
   apply reach_inv in Hr. apply step_trans in Hstep. rewrite Ho2 in Hstep.
   assert (Hin1 : In e1 (h1 ++ e1 :: h2)) by (apply in_app_iff; right; now left).
-  destruct (i_rot _ _ Hr e1 pl1 cr1 n sc1 Hin1 Ho1 Hk1) as [_ Hnone].
+  destruct (i_rot _ _ _ Hr e1 pl1 cr1 n sc1 Hin1 Ho1 Hk1 Hkeep) as [_ Hnone].
   destruct (e_out e2) as [| | | | |t2| | | |] eqn:Hout;
     try (split; [reflexivity | eapply trans_refresh_refused; eauto]).
   apply trans_refresh_inv in Hstep as [n' [r [c [sc' [[= <-] [Hrt _]]]]]]. congruence.
@@ -193,3 +264,30 @@ Proof.
   - exists (firstn 11 ex_h), (ex_ev 9), (ex_ev 11), (skipn 12 ex_h), P_body, (Basic "web" "s3cret"), 4, ["openid"].
     vm_compute. repeat split. do 9 right. now left.
 Qed.
+
+(* ---- non-vacuity of the non-rotating policy: the same token 2 is presented three times; its grant
+   shrinks from [openid; offline_access; email] to [openid; email] to [openid], a superset is refused
+   in between, and the three responses form a chain ---- *)
+Definition ex_cfg_keep : cfg :=
+  {| f_post := true; f_pkjwt := true; f_refresh := true; f_reqobj := true; f_keep := true; clients := clients ex_cfg |}.
+Definition ex_ops_keep : list (router * op) :=
+  [ (Provider, Authorize "web" "https://web/cb" ["openid"; "offline_access"; "email"] "n" None no_extra);
+    (Provider, Login 1 "alice" 3);
+    (Provider, Callback 1);
+    (Provider, TokenCode P_body None (Basic "web" "s3cret") (Some 1) "https://web/cb" "");
+    (Legacy, TokenRefresh P_body (Basic "web" "s3cret") (Some 2) ["openid"; "email"]);
+    (Provider, TokenRefresh P_body (Basic "web" "s3cret") (Some 2) ["openid"; "offline_access"]);   (* no longer granted *)
+    (Provider, TokenRefresh P_body (Basic "web" "s3cret") (Some 2) ["openid"]);
+    (Legacy, TokenRefresh P_body (Post "spa" "") (Some 2) []) ].                                    (* other client *)
+
+Example keep_nonvacuous :
+  map (fun x => match x with OTokens t => (t_rt t, t_scope t) | _ => (None, []) end) (outs ex_H ex_cfg_keep ex_ops_keep)
+  = [ (None, []); (None, []); (None, []);
+      (Some 2, ["openid"; "offline_access"; "email"]);
+      (Some 2, ["openid"; "email"]);
+      (None, []);
+      (Some 2, ["openid"]);
+      (None, []) ]
+  /\ nth_error (outs ex_H ex_cfg_keep ex_ops_keep) 5 = Some (OErr 4 E_scope)
+  /\ nth_error (outs ex_H ex_cfg_keep ex_ops_keep) 7 = Some (OErr 4 E_grant).
+Proof. vm_compute. repeat split. Qed.
